@@ -340,6 +340,7 @@ static void op_netlist(const V &a, V &r) {
     LweSample *w = new_gate_bootstrapping_ciphertext_array(nw, P);
     const ll *ins = v + (size_t) 5 * ni;
     for (int i = 0; i < nw; i++) {
+        if (mode == 2) { bootsCONSTANT(&w[i], (int) ins[i], &cur.sk->cloud); continue; }      // mode 2: the inputs are constants (noiseless trivial samples)
         bootsSymEncrypt(&w[i], (int) ins[i], cur.sk);
         if (mode == 1) {
             int32_t ph = lwePhase(&w[i], cur.sk->lwe_key); int32_t want = (ins[i] ? 1 : -1) * (1 << 29) + ((i & 1) ? 1 : -1) * ((1 << 27) - 4096);
